@@ -264,6 +264,108 @@ fn random_job(ctx: &Ctx, job: usize, iters: u64) -> Stats {
     st
 }
 
+/// Texts that look like something a shell, a quoting layer or an option parser might want to
+/// "help" with: whole texts in primes (a prime is an identifier character), in double quotes
+/// (a comment), in backslashes, starting with dashes or equal signs.
+const CLI_TEXTS: [&str; 24] = [
+    "'a & b'", "'a'", "''", "'", "'a' & 'b'", "'(a) & b'", "'a | b", "a | b'", "\"a\" b", "\"a & b\"", "\"a\" & \"b\" c", "-a", "--a", "-a & -b", "- -a", "=a", "a = b", "[a] = 1", " a ", "a\\b", "a\\ & b", "a\n& b", "a;b", "a #b",
+];
+
+/// channel 0: -e TEXT, 1: --evaluate=TEXT, 2: file, 3: standard input
+fn cli_one(ctx: &Ctx, st: &mut Stats, text: &str, channel: u8, tag: &str) {
+    use crate::cli;
+    let text = text.to_string();
+    let reference = refsyn::parse_text(&text);
+    if let Ok(a) = &reference {
+        if a.has_kind(&|x| matches!(x, Ast::Ref(_))) || a.names_in_text_order().len() > 10 {
+            return;
+        }
+    }
+    let mut channel = channel;
+    if text.contains('\0') || (channel == 0 && text.starts_with('-')) {
+        channel = if text.contains('\0') { 2 } else { 1 };
+    }
+    let dir = ctx.fresh_dir(&format!("c08-cli-{}", tag));
+    let _ = std::fs::create_dir_all(&dir);
+    let tree_path = dir.join("tree.dot");
+    let mut args: Vec<String> = Vec::new();
+    let mut stdin: Option<Vec<u8>> = None;
+    match channel {
+        0 => {
+            args.push("-e".into());
+            args.push(text.clone());
+        }
+        1 => args.push(format!("--evaluate={}", text)),
+        2 => {
+            let _ = std::fs::write(dir.join("in.txt"), &text);
+            args.push("in.txt".into());
+        }
+        _ => stdin = Some(text.clone().into_bytes()),
+    }
+    args.push("-p".into());
+    args.push("tree.dot".into());
+    st.evals += 1;
+    st.bump("cli_texts");
+    st.bump(["cli_texts_by_-e", "cli_texts_by_--evaluate=", "cli_texts_by_file", "cli_texts_by_stdin"][channel as usize]);
+    let out = cli::run(&ctx.bin("rsbdd"), &args, stdin.as_deref(), Some(&dir), Some((20_000_000, 2_000)), std::time::Duration::from_secs(60));
+    let case = || json!({"kind": "cli", "text": text, "channel": channel});
+    let how = ["-e <text>", "--evaluate=<text>", "<file>", "standard input"][channel as usize];
+    if out.timed_out || out.budget_exceeded() {
+        st.bump("cli_out_of_budget(inconclusive case)");
+    } else {
+        match (&reference, out.ok()) {
+            (Err(e), true) => st.violate("c08.accepts-non-sentence", "C08:cli:accepts-non-sentence".into(), format!("rsbdd reading {:?} by {}: not a sentence of the grammar ({:?}) but the tool exits 0", text, how, e), case()),
+            (Err(_), false) => {
+                st.bump("cli_rejected_by_both");
+            }
+            (Ok(want), false) => st.violate("c08.rejects-sentence", format!("C08:cli:rejects-sentence:{}", out.panic_site()), format!("rsbdd reading {:?} by {}: a sentence ({:?}) but the tool fails: {}\n{}", text, how, want, out.status_string(), out.stderr_str()), case()),
+            (Ok(want), true) => match std::fs::read_to_string(&tree_path).map_err(|e| e.to_string()).and_then(|d| crate::dotread::parse(&d)).and_then(|d| crate::dotread::term_of_parse_tree(&d)) {
+                Ok(got) if &got == want => {
+                    st.bump("cli_accepted_same_tree");
+                    st.nt.insert(mix(util::hash_str(&text), 0xc11 + channel as u64));
+                }
+                Ok(got) => st.violate("c08.tree", format!("C08:cli:tree-differs:{}", tree_sig(want)), format!("rsbdd reading {:?} by {}:\n exported tree:  {:?}\n reference tree: {:?}", text, how, got, want), case()),
+                Err(e) => st.violate("c08.tree", "C08:cli:tree-unreadable".into(), format!("rsbdd reading {:?} by {}: the -p export cannot be read back: {}", text, how, e), case()),
+            },
+        }
+    }
+    let _ = std::fs::remove_dir_all(&dir);
+}
+
+/// The tool is a reader of texts too: what `rsbdd` makes of a text given with -e / --evaluate=,
+/// as a file, or on standard input — read back from its parse-tree export (-p) — is the tree the
+/// grammar assigns, and a non-sentence is refused with a non-zero exit.
+fn cli_job(ctx: &Ctx, job: usize, iters: u64) -> Stats {
+    let mut st = Stats::new();
+    let mut rng = Rng::stream(ctx.seed, "C08.cli", job as u64);
+    for it in 0..iters {
+        let text: String = if it < 2 {
+            CLI_TEXTS[(job * 2 + it as usize) % CLI_TEXTS.len()].to_string()
+        } else {
+            let pool: &[&str] = if it % 4 == 0 { &gen::FANCY_NAMES } else if it % 4 == 1 { &gen::MARK_NAMES } else { &gen::PLAIN_NAMES };
+            let mut cfg = GenCfg::simple(&pool[..3], 3);
+            cfg.binder_weight = 22;
+            let ast = gen::gen_ast(&mut rng, &cfg);
+            match it % 3 {
+                0 => gen::render(&ast, &mut rng, Style::Fancy),
+                1 => {
+                    let toks = gen::render_tokens(&ast, &mut rng, Style::Plain);
+                    gen::join_tokens(&gen::mutate_tokens(&toks, &mut rng), &mut rng, Style::Plain)
+                }
+                _ => {
+                    // wrapped the way a quoting layer might leave it
+                    let inner = gen::render(&ast, &mut rng, Style::Plain);
+                    let (l, r) = *rng.pick(&[("'", "'"), ("\"", "\""), ("'", ""), ("", "'"), ("`", "`"), ("(", ")"), ("\\", ""), (" ", " "), ("\"\"", ""), ("'\"", "\"'")]);
+                    format!("{}{}{}", l, inner, r)
+                }
+            }
+        };
+        let channel = rng.below(4) as u8;
+        cli_one(ctx, &mut st, &text, channel, &format!("{}-{}", job, it));
+    }
+    st
+}
+
 const CURATED: [&str; 40] = [
     "", " ", "\n", "a", "a'", "'", "''a", "_x", "x1", "1x", "12ab", "a12", "é", "λx & 中", "a\u{0301}", "x\u{200d}y", "a\u{00a0}b", "a‿b", "x² & y", "😀", "a 😀 b", "\"", "\"\"", "\"a", "a\"", "\"a\" b \"c\"", "{r}", "{r", "r}", "{}", "{a b}", "{a'}", "a{r}b",
     "<=>", "<= >", "< = >", "=>=", ">==", "<<=", "<=>=>",
@@ -313,11 +415,15 @@ pub fn run(ctx: &Ctx) -> (Stats, Spec) {
     for t in CURATED {
         check_text(&mut st, t, true, "curated");
     }
+    // (d) the tool as a reader of texts
+    let cli_iters = ctx.tier.pick(60u64, 4_000u64);
+    let parts = util::par_jobs(16, |job| cli_job(ctx, job, cli_iters));
+    st.merge(crate::report::merge_all(parts));
     for t in ["-(a b c", "-[a] 3 b", "- a & b", "-a & b", "- (a) b", "-(a", "!(a & b", "not [a] = 1 b", "exists a b # a", "exists , # a", "[,] = 1", "[a,,] = 1", "[a] = ", "if a then b", "lfp # a", "lfp a, b # a", "a & & b", "(a))", "a <=> <= b"] {
         check_text(&mut st, t, true, "negation-and-edge-cases");
     }
     let spec = Spec {
-        rule: "exhaustive token sequences (full 33-kind alphabet to length 4 [quick] / 5 [thorough]; reduced alphabet at length 5 / 6), exhaustive character strings over 16 characters to length 5 / 6, random well-formed texts with every alias spelling and their token-level mutations (delete / duplicate / swap / replace / insert / drop a bracket / truncate), splices, soups, a curated Unicode set, and texts of 8-60 KiB (padding by comments / whitespace / separator lines before, inside and after a formula). distinct = text; non-trivial = >= 3 tokens and either accepted, or rejected by the reference only after >= 2 tokens were consumed.".into(),
+        rule: "exhaustive token sequences (full 33-kind alphabet to length 4 [quick] / 5 [thorough]; reduced alphabet at length 5 / 6), exhaustive character strings over 16 characters to length 5 / 6, random well-formed texts with every alias spelling and their token-level mutations (delete / duplicate / swap / replace / insert / drop a bracket / truncate), splices, soups, a curated Unicode set, and texts of 8-60 KiB (padding by comments / whitespace / separator lines before, inside and after a formula); plus the TOOL as reader: random, mutated and quote-/prime-/bracket-wrapped texts given to rsbdd by -e, --evaluate=, file or standard input, its -p parse-tree export read back and compared with the reference tree (non-sentences must make it exit non-zero). distinct = text; non-trivial = >= 3 tokens and either accepted, or rejected by the reference only after >= 2 tokens were consumed.".into(),
         assumptions: vec![
             "the reference grammar is DESIGN.md 2.1/2.2 (written from README + property statement); `\\w` / `\\d` are the regex crate's Unicode classes".into(),
             "a digit run that is not an ASCII number fitting the machine integer must be rejected".into(),
@@ -328,6 +434,8 @@ pub fn run(ctx: &Ctx) -> (Stats, Spec) {
             ("token_lists_compared".into(), 100_000, "token lists hardly compared".into()),
             ("mutated_texts".into(), 10_000, "mutations not exercised".into()),
             ("large_texts".into(), 50, "texts beyond 8 KiB not exercised".into()),
+            ("cli_accepted_same_tree".into(), 150, "the tool's reading of texts hardly compared".into()),
+            ("cli_rejected_by_both".into(), 100, "the tool's refusal of non-sentences hardly exercised".into()),
         ],
     };
     (st, spec)
@@ -335,6 +443,10 @@ pub fn run(ctx: &Ctx) -> (Stats, Spec) {
 
 pub fn replay(_ctx: &Ctx, _monitor: &str, case: &Value, st: &mut Stats) {
     if let Some(t) = case.get("text").and_then(|t| t.as_str()) {
+        if case.get("kind").and_then(|k| k.as_str()) == Some("cli") {
+            cli_one(_ctx, st, t, case.get("channel").and_then(|c| c.as_u64()).unwrap_or(1) as u8, "replay");
+            return;
+        }
         check_text(st, t, true, "replay");
     }
 }
